@@ -964,6 +964,14 @@ fn finding_jack_remap_panic(ctx: &mut Ctx) {
     finish(rig, ctx, clean);
 }
 
+/// the token interface only (also run under C04 and C09: the buffers of a transfer stay shared, and are neither
+/// released nor unshared, until its completion is consumed, whatever the polling order)
+pub fn run_nb(ctx: &mut Ctx) {
+    let nn = ctx.budget(12, 4);
+    for i in 0..nn { ctx.tr.scenario(&format!("c20snd-nb-{}", i)); nb_history(ctx, FEATS[(i % 6) as usize], 150, i); }
+    for (i, f) in FEATS.iter().enumerate() { ctx.tr.scenario(&format!("c20snd-nb-permutation-{}", i)); nb_permutation(ctx, *f); }
+}
+
 pub fn run(ctx: &mut Ctx) {
     ctx.tr.scenario("c20snd-finding-xfer-ok-status"); finding_xfer_ok_status(ctx);
     ctx.tr.scenario("c20snd-finding-jack-remap-panic"); finding_jack_remap_panic(ctx);
